@@ -47,7 +47,8 @@ CHECKS["C10"] = dict(
     text="Per list of point units (pairs, triples; library + seeded random generated units): multiplier m and offset o are read off each to-common-point-unit kernel and the solver "
          "proves to_cpu(x) == x*m + o for ALL x (mod 2^64 unsigned; exact and trap-free when it fits, signed); closed facts: m positive integer, o non-negative, one common unit "
          "dividing the gcd of the scales and origin differences, offsets consistent with exact origins (origins written in kelvins, prefixed units and anonymous scalings of prefixed / derived units), "
-         "type identical under permutation/repetition and through common_point_unit(...), equals an input exactly when m=1,o=0.",
+         "type identical under permutation/repetition and through common_point_unit(...), equals an input exactly when m=1,o=0; the explicit-rep spellings (coerce_as<T>, converting constructor) "
+         "from narrow signed/unsigned reps into wider ones yield exactly x*m + o for ALL x whenever that fits.",
     note=TB + "; lists enumerated; type-identity facts are compile-time booleans, not solver-decided.")
 CHECKS["C06"] = dict(
     category="model_checking",
@@ -88,20 +89,21 @@ CHECKS["C12"] = dict(
     technique="bounded symbolic execution of clang LLVM IR (unsigned-wrap traps on), SMT: integer emission with quotient/remainder abstraction (z3/cvc5 NIA) and bit-vector emission at reduced width",
     text="At full 64-bit width and for ALL inputs under the documented preconditions: add_mod, sub_mod, half_mod_odd return the exact residue with no intermediate wrap; decompose(n) = (s, d) with n == d<<s, d odd "
          "(unwind 64 + unwinding assertion); mul_mod: one inductive step (recursive call replaced by its contract): call-site precondition, strict decrease, no wrap/div-by-zero, result < n, result formula, "
-         "and a*b == result + Q*n with a witness Q; the same step bit-precisely at W=5/6 bits without hints; is_perfect_square(n) is false and trap-free for ALL 64-bit odd n that are non-residues mod 8 or mod 3/5/7 (Newton loop unwound 5 quick / 12 thorough, unwinding is a precondition); gcd(a,b) at 6 bits (quick) / 8 bits (thorough) of the re-interpreted IR is the greatest common divisor for ALL a,b; find_prime_factor(n) at full width is the least prime factor for ALL 1 < n < 2^12 (2^16 thorough; trial-division phase, unwound with assertion); jacobi_symbol at 5 (6) bits equals an independent table for ALL signed a and odd n; thorough: pow_mod at 4 bits == base^exp mod n by repeated multiplication, miller_rabin at 4 bits (no wrap) and 5 bits == the definition, with mul_mod recursion inlined. Factorisation/primality read-outs for adversarial numbers (all base-2 strong pseudoprimes below 2^21 and a dense tail, Carmichael numbers, squares that wrap, 64-bit semiprimes) and find_prime_factor on inputs chosen per path through the function (trial hit, early exit, prime beyond the table, Pollard rho returning a prime / a composite divisor with one or more re-splits / needing a parameter retry) are closed compile-time facts.",
+         "and a*b == result + Q*n with a witness Q; the same step bit-precisely at W=5/6 bits without hints; is_perfect_square(n) is false and trap-free for ALL 64-bit odd n that are non-residues mod 8 or mod 3/5/7 (Newton loop unwound 5 quick / 12 thorough, unwinding is a precondition); gcd(a,b) at 6 bits (quick) / 8 bits (thorough) of the re-interpreted IR is the greatest common divisor for ALL a,b; find_prime_factor(n) at full width is the least prime factor for ALL 1 < n < 2^12 (2^16 thorough; trial-division phase, unwound with assertion); jacobi_symbol at 5 (6) bits equals an independent table for ALL signed a and odd n; thorough: pow_mod at 4 bits == base^exp mod n by repeated multiplication, miller_rabin at 4 bits (no wrap) and 5 bits == the definition, with mul_mod recursion inlined. Factorisation/primality read-outs for adversarial numbers (all base-2 strong pseudoprimes below 2^21 and a dense tail, Carmichael numbers, squares that wrap, 64-bit semiprimes) and find_prime_factor on inputs chosen per path through the function (trial hit, early exit, prime beyond the table, Pollard rho returning a prime / a composite divisor with one or more re-splits / needing a parameter retry) and the canonical factorisation type of mag<N>() for structured N (all powers of 2,3,5,6,7,10,12,60,100,1000,1024,3600 below 2^64, factorials, primorials, 1..130, 2^k +/- 1, smooth numbers) are closed compile-time facts.",
     note=TB + "; primality/factor-finder exactness for every 64-bit n, 64-bit pow_mod, gcd, jacobi, miller_rabin, strong Lucas and Pollard rho are NOT claimed (outside bounded symbolic execution); reduced-width results are about the re-interpreted IR and are flagged as such in evidence.")
 CHECKS["C14"] = dict(
     category="translation_validation",
     technique="solver equivalence (SMT over clang LLVM IR) of Au product/quotient/power kernels with raw-operator / std-function reference kernels in the same TU; closed unit facts vs model",
     text="For reps x unit pairs and ALL operand values: q*q, q/q, s*q, s/q, unblock_int_div forms, int_pow<k>, sqrt, cbrt, as_raw_number equal the raw operator / libm call on the stored values (same bits or both NaN, "
          "same trap condition); int_pow on 8/16-bit reps equals x^k whenever x^k is representable; resulting units and collapse-to-raw-number are closed booleans vs a hand-written model table; as_raw_number compiles exactly when the documented policy accepts the conversion to the unitless unit "
-         "(grid rep x factor at the thresholds floor(max/2147), +1, 10^7, 10^9, non-integers) and accepted forms equal x*k for ALL x.",
+         "(grid rep x factor at the thresholds floor(max/2147), +1, 10^7, 10^9, non-integers) and accepted forms equal x*k for ALL x; units that cancel in dimension but leave an irrational factor (pi, 1/pi, sqrt 10, 100^(-1/3)) stay quantities, exactly cancelling ones collapse (hand-written facts).",
     note=TB + "; libm functions are uninterpreted (congruence only); rejection clauses (integer-division guard, as_raw_number on dimensioned / overflow-risky input) are compiler verdicts observed at lowering, not solver results.")
 CHECKS["C17"] = dict(
     category="translation_validation",
     technique="solver equivalence (SMT over clang LLVM IR) of Au chrono-interop kernels with pure std::chrono reference kernels in the same TU; closed mapping facts vs model",
     text="For Rep in {int32,int64,float,double} x 9 periods and ALL counts: duration -> quantity -> duration is the identity bit-for-bit (implicit and as_chrono_duration), as_quantity has the count in seconds x Period; "
-         "mixed duration/quantity comparisons, + and - equal the std::chrono computation whenever that computation does not trap (32-bit: operands in range); is_convertible<duration,Q> equals that of the corresponding quantity and the policy model.",
+         "mixed duration/quantity comparisons, + and - equal the std::chrono computation whenever that computation does not trap (32-bit: operands in range); is_convertible<duration,Q> equals that of the corresponding quantity and the policy model; the C++20 calendar durations (days, weeks, months, years) are lowered at -std=c++20: round trips, unit == seconds x Period, "
+         "same duration type back, value in seconds == count x Period for ALL counts.",
     note=TB + "; libstdc++ chrono as shipped; NaN counts excluded for <= and >= (libstdc++ defines a<=b as !(b<a)); periods enumerated.")
 CHECKS["C11"] = dict(
     category="model_checking",
@@ -128,7 +130,7 @@ CHECKS["C18"] = dict(
     category="model_checking",
     technique="bounded symbolic execution of clang LLVM IR: digit-count loops unwound (20) for all 64-bit inputs; label arrays read at a symbolic index (SMT ite-chains over constant data) vs an independent grammar model",
     text="string_size_unsigned(x) == number of decimal digits for ALL x < 2^64 and string_size(x) for all x > INT64_MIN; for a grid of unit expressions, IToA/UIToA arguments and magnitude labels: for ALL indices i <= len the "
-         "i-th character equals the independently generated expected label, the terminator is NUL and sizeof == len+1; labels of distinct units differ (closed); operator<< on Quantity/QuantityPoint over a recording stream stub: for ALL stored values the emitted event trace is (value inserted with the promoted arithmetic type - never a char insertion for 8-bit reps -, then one space, then the label), and the printed text equals `os << +value` followed by the label under five stream formatting states (native twins).",
+         "i-th character equals the independently generated expected label, the terminator is NUL and sizeof == len+1; labels of distinct units differ (closed); operator<< on Quantity/QuantityPoint over a recording stream stub: for ALL stored values the emitted event trace is (value inserted with the promoted arithmetic type - never a char insertion for 8-bit reps -, then one space, then the label), and the printed text equals `os << +value` followed by the label under five stream formatting states (native twins); streamed units include dimensionless ones (%, m / km, U, [1000 U]).",
     note=TB + "; the real std::ostream (virtual dispatch, locale, digit formatting) is replaced by the recording stub and is outside; unit expressions enumerated.")
 CHECKS["C20"] = dict(
     category="translation_validation",
